@@ -24,7 +24,7 @@ from . import c20
 
 PROPERTY = "C14"
 LEVEL = "exploration"
-RUNS = {"quick": 800, "thorough": 16000}
+RUNS = {"quick": 1000, "thorough": 20000}
 BATCH = 4
 RULE = ("seeded bursts of 2-8 concurrent clients (request kind x protocol x network plan) x server type x "
         "scheduler policy (uniform/sticky/PCT) x pre-emption rate; non-trivial = more than one worker was "
@@ -43,13 +43,21 @@ PROBES_REQUIRED = ["workers_overlapped", "stalled_client_present", "slow_reader_
 KINDS = dict(c20.KINDS)
 REQ_KINDS = ["doc-small", "doc-large", "menu", "menu", "menu-root", "menu-root", "html", "mbox-folder",
              "mbox-message", "maildir-folder", "maildir-message", "zip-listing", "zip-member", "zip2-member", "tal",
-             "notfound", "gophermap", "url", "pyg", "script", "gz"]
+             "notfound", "gophermap", "url", "pyg", "script", "gz", "script-big", "gz-big", "mbox-message-1",
+             "maildir-message-2", "zip-html-a", "zip-html-b", "stale-links"]
+# groups of requests that touch the same underlying object / mechanism (a burst is often drawn from one group)
+GROUPS = [["menu", "menu-root"], ["mbox-folder", "mbox-message", "mbox-message-1"],
+          ["maildir-folder", "maildir-message", "maildir-message-2"],
+          ["zip-listing", "zip-member", "zip-html-a", "zip-html-b", "zip2-member"],
+          ["script", "script-big", "gz", "gz-big"], ["html", "tal", "pyg"]]
+BIG = ["doc-large", "script-big", "gz-big", "menu-root", "mbox-folder"]
 PROTOS = c20.PROTOS + ["wap-auto", "http", "https"]
 TIMEOUT = 60
 FOCUS = {
     # swarm: which yield kinds get priority change points under PCT
     "cache": {"write": 0.5, "torn": 0.5, "close": 0.1},
     "net": {"recv": 0.2, "send": 0.1, "accept": 0.2, "thread-start": 0.3},
+    "io": {"read": 0.3, "open": 0.2, "stat": 0.05, "listdir": 0.2, "close": 0.2, "subprocess": 0.3},
     "data": {"hot-before": 0.5, "hot-after": 0.5},
     "mixed": {"write": 0.3, "torn": 0.3, "open": 0.05, "recv": 0.05, "send": 0.02,
               "thread-start": 0.1, "line": 0.05, "hot-before": 0.3, "hot-after": 0.3},
@@ -90,9 +98,12 @@ def _burst(rng, n):
         if roles[i] == "normal":
             roles[i] = "reset"
     out = []
-    share = rng.choice(REQ_KINDS[2:6]) if rng.random() < 0.6 else None
+    group = rng.choice(GROUPS) if rng.random() < 0.75 else None
     for r in roles:
-        kind = share if (share and rng.random() < 0.6) else rng.choice(REQ_KINDS)
+        kind = rng.choice(group) if (group and rng.random() < 0.8) else rng.choice(REQ_KINDS)
+        if r == "slow" and rng.random() < 0.7:
+            # a slow reader only matters when the response is larger than its send buffer
+            kind = rng.choice([k for k in BIG if (group is None or k in group)] or BIG)
         p = rng.choice(PROTOS)
         req, tls = proto.make_request(p, KINDS[kind])
         out.append({"kind": kind, "proto": p, "net": _netplan(rng, r, len(req) + (13 if tls else 0))})
@@ -109,8 +120,8 @@ def gen(seed, index, tier):
         "world": {"bigsize": rng.choice([100, 4097, 9000]), "nmsg": rng.randrange(2, 4),
                   "ndocs": rng.randrange(1, 6)},
         "preempt_p": rng.choice([0.0, 0.01, 0.05, 0.2]) if st == "ThreadingTCPServer" else rng.choice([0.0, 0.01]),
-        "policy": rng.choice(["random", "sticky", "pct", "pct", "pct"]),
-        "focus": rng.choice(["cache", "net", "data", "data", "mixed"]),
+        "policy": rng.choice(["random", "random", "sticky", "pct", "pct", "pct"]),
+        "focus": rng.choice(["cache", "net", "io", "data", "data", "mixed"]),
         "trace_hot": rng.random() < 0.9,
         "sched_seed": rng.randrange(1 << 30),
     }
